@@ -78,6 +78,8 @@ func (fc *FnCtx) escapeInfo() *escInfo {
 							walk(u)
 						case *ssa.UnOp, *ssa.DebugRef, *ssa.Field, *ssa.Index, *ssa.Lookup, *ssa.BinOp, *ssa.If, *ssa.Range:
 							// loads, comparisons
+						case *ssa.Return:
+							// handed to the caller only when this function is over: nothing here can observe it
 						case *ssa.Store:
 							if u.Val == v {
 								sink = true
@@ -248,6 +250,11 @@ func (fc *FnCtx) noAliasLocal(v Val) {
 				continue
 			}
 			fc.assumeHere(fmt.Sprintf("(not (= %s %s))", r, c))
+			for _, sub := range fc.localSubs[c] {
+				if sub != r {
+					fc.assumeHere(fmt.Sprintf("(not (= %s %s))", r, sub))
+				}
+			}
 		}
 	}
 }
@@ -351,6 +358,15 @@ func writtenInLoop(a ssa.Value, l *Loop) bool {
 					}
 				}
 			}
+		}
+	}
+	return false
+}
+
+func (fc *FnCtx) isAllocConst(term string) bool {
+	for _, c := range fc.allocSite {
+		if c == term {
+			return true
 		}
 	}
 	return false
